@@ -132,6 +132,9 @@ def shard(ctx, k, payload):
             # wages above the Additional Medicare Tax threshold (Form 8959 then adds to the withholding of line 25c)
             p.update(status='Single', wage_level='high', n_w2=1, deps=[])
         if data.draw(st.integers(0, 5)) == 0:
+            # an investor: qualified dividends far above the wages (taxable income below the preferential income)
+            p.update(big_dividends=True, n_div=1, n_int=0, wage_level='low', n_w2=1, deps=[], s199a=False, itemize=False)
+        if data.draw(st.integers(0, 5)) == 0:
             # state withholding on statements of both spouses (NC lines 20a/20b walk every payer statement)
             p.update(forms=['1040', 'nc_d-400'], status='MarriedFilingJointly', n_r=data.draw(st.sampled_from([2, 3])), both_spouses_1099r=True,
                      nc_withholding=True, n_1098=max(1, p['n_1098']), ira='none')
@@ -335,7 +338,9 @@ def shard_cliffs(ctx, k, payload):
         forms = data.draw(st.sampled_from([['1040'], ['1040', 'nc_d-400'], ['1040', 'nc_d-400']]))
         p = data.draw(scenario.personas(forms=forms))
         p['n_w2'] = max(p['n_w2'], 1)
-        if data.draw(st.booleans()):
+        if data.draw(st.integers(0, 5)) == 0:
+            p.update(big_dividends=True, n_div=1, n_int=0, wage_level='low', n_w2=1, deps=[], s199a=False, itemize=False)
+        elif data.draw(st.booleans()):
             p.update(itemize=True, n_1098=max(1, p['n_1098']))
         if data.draw(st.booleans()) and not any(x == 'ctc' for x in p['deps']):
             p['deps'] = ['ctc'] * data.draw(st.sampled_from([1, 1, 2]))
